@@ -6,6 +6,7 @@ leaving it saves them and restores the caller's.
 """
 import pickle
 import random
+import sys
 from contextlib import contextmanager
 
 import numpy as np
@@ -32,9 +33,89 @@ _bg.randbits = _sim_randbits
 
 
 def reset_entropy():
+    clear_library_caches()
     _ENTROPY["default"] = random.Random("entropy/default")
     _ENTROPY["current"] = None
     _ENTROPY["incarnations"] = 0
+
+
+# ---- process-global memo caches (functools.lru_cache & co. in the library under test) ----------------------------------------
+# In production every process has its own copy of such a cache; simulated processes share one interpreter.  The
+# simulator therefore (a) clears them at the start of every plan (replay determinism) and (b) lets an engine clear them
+# whenever another simulated process gets the CPU, so that a cache never carries a value from one "process" to another.
+_CACHED = {"n_modules": -1, "fns": []}
+
+
+def _library_caches(prefix="kappadata"):
+    if len(sys.modules) == _CACHED["n_modules"]:
+        return _CACHED["fns"]
+    mods = [m for n, m in list(sys.modules.items()) if (n == prefix or n.startswith(prefix + ".")) and m is not None]
+    if True:
+        fns = []
+        for m in mods:
+            for v in list(vars(m).values()):
+                if callable(getattr(v, "cache_clear", None)):
+                    fns.append(v)
+        _CACHED["n_modules"] = len(sys.modules)
+        _CACHED["fns"] = fns
+    return _CACHED["fns"]
+
+
+def clear_library_caches():
+    for f in _library_caches():
+        try:
+            f.cache_clear()
+        except Exception:
+            pass
+
+
+# ---- hash randomisation seam ----------------------------------------------------------------------------------------------
+# str/bytes hashes are salted per interpreter (PYTHONHASHSEED): two real processes disagree on hash("abc").  Code that
+# derives anything from the builtin hash() therefore behaves differently in every rank / worker.  Under simulation the
+# builtin name `hash` can be replaced per simulated process by a deterministic salted function (C-level hashing of
+# dicts/sets is not affected).
+import builtins as _builtins
+import hashlib as _hashlib
+
+_REAL_HASH = _builtins.hash
+
+
+def _stable(o):
+    if isinstance(o, str):
+        return b"s" + o.encode()
+    if isinstance(o, bytes):
+        return b"b" + o
+    if isinstance(o, (tuple, frozenset)):
+        parts = [_stable(x) for x in (sorted(o, key=repr) if isinstance(o, frozenset) else o)]
+        return None if any(p is None for p in parts) else b"t(" + b",".join(parts) + b")"
+    if isinstance(o, (int, float, bool, type(None))):
+        return repr(o).encode()
+    return None
+
+
+class salted_hash:
+    """context: builtins.hash is salted like a fresh interpreter's would be, deterministically from `salt`"""
+
+    def __init__(self, salt):
+        self.salt = str(salt).encode()
+
+    def __enter__(self):
+        salt = self.salt
+
+        def sim_hash(o):
+            if isinstance(o, (int, float, bool)) or o is None:
+                return _REAL_HASH(o)  # numeric hashes are not randomised
+            st = _stable(o)
+            if st is None:
+                return _REAL_HASH(o)
+            return int.from_bytes(_hashlib.sha256(salt + b"/" + st).digest()[:8], "big", signed=True)
+
+        self.saved = _builtins.hash
+        _builtins.hash = sim_hash
+        return self
+
+    def __exit__(self, *a):
+        _builtins.hash = self.saved
 
 
 def save_amb():
